@@ -6,7 +6,7 @@ import numpy as np
 from vf.rtc.runner import Acc
 
 VAC_IDS_QUICK = ['FCC', 'BCC', 'HCP', 'B2', 'square2D', 'honeycomb2D', 'HCP+OT', 'ortho2site', 'wurtzite+X', 'P-4(S4 site)', 'mono-P2/m-rotated', 'rect2D-rot30']
-VAC_IDS_THOROUGH = VAC_IDS_QUICK + ['SC', 'diamond', 'L12', 'tria2D', 'rect2D', 'oblique2D', 'rumpled-omega', 'omega', 'tric-P-1', 'HCP-rotated', 'random5-dim2-1atoms', 'random7-dim2-2atoms']
+VAC_IDS_THOROUGH = VAC_IDS_QUICK + ['SC', 'diamond', 'L12', 'tria2D', 'rect2D', 'oblique2D', 'rumpled-omega', 'omega', 'tric-P-1', 'HCP-rotated', 'random5-dim2', 'random7-dim2']     # random members: matched by prefix (the atom count in the id depends on the seed)
 
 
 def vac_ids(tier): return VAC_IDS_QUICK if tier == 'quick' else VAC_IDS_THOROUGH
@@ -15,7 +15,7 @@ def vac_ids(tier): return VAC_IDS_QUICK if tier == 'quick' else VAC_IDS_THOROUGH
 def build(cid, tier, seed, Nthermo=1):
     from onsager import OnsagerCalc
     from vf.rtc import catalogue
-    e = [f for c, f in catalogue.builders('thorough', seed) if c == cid][0]()
+    e = [f for c, f in catalogue.builders('thorough', seed) if c == cid or (cid.startswith('random') and c.startswith(cid + '-'))][0]()
     c, chem = e['crys'], e['chem']
     jn = c.jumpnetwork(chem, e['cutoff'])
     return OnsagerCalc.VacancyMediated(c, chem, c.sitelist(chem), jn, Nthermo), e
